@@ -29,7 +29,12 @@ def unescape(string):
 def _replace_charref(match):
     ref = match.group(1)
     if ref[0] == '#':
-        return html.unescape(match.group(0))
+        # the character itself (html.unescape() drops control characters and reads 128-159 as
+        # windows-1252); U+0000 and what is not a code point give the replacement character
+        code = int(ref[2:-1], 16) if ref[1] in 'xX' else int(ref[1:-1])
+        if code == 0 or code > 0x10FFFF or 0xD800 <= code <= 0xDFFF:
+            return '\uFFFD'
+        return chr(code)
     return html5_entities.get(ref, match.group(0))
 
 
